@@ -61,6 +61,22 @@ pub fn curated() -> Vec<Scen> {
             vec![ff(1, A), link(1, A, 0, 0), notar(2, A), notar(3, A), nf(3, A), nf(3, X), Op::Wait(4), link(3, A, 2, A)],
         ),
         s(
+            "equivocated-sibling-chain-late-links",
+            vec![notar(1, A), notar(2, A), fin(2), link(2, X, 1, X), link(2, A, 1, A), link(1, A, 0, 0), link(1, X, 0, 0)],
+        ),
+        s(
+            "sibling-of-fast-finalized-block",
+            vec![ff(2, A), link(2, X, 1, X), link(2, A, 1, A), notar(1, A), link(1, X, 0, 0), link(1, A, 0, 0)],
+        ),
+        s(
+            "sibling-with-older-parent",
+            vec![ff(3, A), link(3, X, 1, A), link(3, A, 2, A), link(2, A, 1, A), notar(2, A), notar(1, A), link(1, A, 0, 0)],
+        ),
+        s(
+            "sibling-of-implicitly-finalized-block",
+            vec![ff(3, A), link(3, A, 2, A), link(2, X, 1, X), link(2, A, 1, A), notar(1, A), nf(1, X), link(1, X, 0, 0)],
+        ),
+        s(
             "two-windows-skip-chain",
             vec![skip(1), skip(2), skip(3), skip(4), skip(5), skip(6), skip(7), notar(2, A), Op::Wait(8), Op::Wait(4)],
         ),
@@ -82,6 +98,20 @@ pub fn vote_built() -> Vec<Scen> {
                 votes(f, 2, 0, &[1, 2]),
                 vec![link(2, A, 1, A), link(1, A, 0, 0)],
             ]),
+        ),
+        s(
+            "votes-own-notar-a-and-fallback-x-in-one-slot",
+            cat(vec![
+                votes(n, 1, A, &[0, 1]),
+                votes(VK::NotarFb, 1, X, &[0, 2]),
+                votes(sk, 2, 0, &[0, 1]),
+                votes(VK::SkipFb, 3, 0, &[0]),
+                votes(n, 3, A, &[0]),
+            ]),
+        ),
+        s(
+            "votes-own-notar-a-and-fallback-x-then-finalized",
+            cat(vec![votes(n, 1, A, &[0, 1]), votes(VK::NotarFb, 1, X, &[0, 2]), votes(n, 2, A, &[0, 1, 2]), vec![link(2, A, 1, A)]]),
         ),
         s(
             "votes-own-later-votes-and-skip",
@@ -110,6 +140,9 @@ pub fn systematic(slots: u64, max_ops: usize) -> Vec<Scen> {
         ("orphan", false, |s| vec![skip(s), notar(s, X)]),
         ("nf-vs-orphan-notar", true, |s| vec![nf(s, A), notar(s, X)]),
         ("two-nf", true, |s| vec![nf(s, A), nf(s, X)]),
+        ("ff-sib", true, |s| vec![ff(s, A), link(s, X, s - 1, if s == 1 { 0 } else { X })]),
+        ("slow-sib", true, |s| vec![notar(s, A), fin(s), link(s, X, s - 1, if s == 1 { 0 } else { X })]),
+        ("notar-sib", true, |s| vec![notar(s, A), link(s, X, s - 1, if s == 1 { 0 } else { X })]),
     ];
     let mut out = Vec::new();
     let k = menu.len() as u64;
@@ -131,7 +164,7 @@ pub fn systematic(slots: u64, max_ops: usize) -> Vec<Scen> {
                 ops.push(link(slot, A, prev_chain.0, prev_chain.1));
                 prev_chain = (slot, A);
                 chain_slots += 1;
-                if *vn == "ff" || *vn == "slow" {
+                if vn.starts_with("ff") || vn.starts_with("slow") {
                     has_direct = true;
                 }
             }
@@ -145,7 +178,7 @@ pub fn systematic(slots: u64, max_ops: usize) -> Vec<Scen> {
     out
 }
 
-fn run_scens(report: &Report, focus: &'static str, scens: Vec<Scen>, max_states: usize, secs_each: u64, total_secs: u64) -> Value {
+pub fn run_scens(report: &Report, focus: &'static str, scens: Vec<Scen>, max_states: usize, secs_each: u64, total_secs: u64) -> Value {
     let epoch = Arc::new(make_epoch(&[1, 1, 1]));
     let mut total = BfsStats::default();
     let mut per = Vec::new();
@@ -193,6 +226,13 @@ fn run_scens(report: &Report, focus: &'static str, scens: Vec<Scen>, max_states:
         "families": per,
         "samples": samples,
     })
+}
+
+/// Scenarios with equivocated sibling blocks whose parent links are known (used by C01 too).
+pub fn sibling_scens(tier: Tier) -> Vec<Scen> {
+    let mut v: Vec<Scen> = curated().into_iter().filter(|s| s.name.contains("sibling")).collect();
+    v.extend(systematic(3, tier.pick(9, 11)).into_iter().filter(|s| s.name.contains("-sib")));
+    v
 }
 
 fn scen_set(tier: Tier) -> Vec<Scen> {
